@@ -809,8 +809,18 @@ func (t *tree) boolAttr(attrs map[string]string, key string, defaultValue bool) 
 // parseQuotedExpr ignores the current lex/parse state and parses the given
 // string as a standalone expression.
 func (t *tree) parseQuotedExpr(str string) ast.Node {
-	var tt = &tree{lex: lexExpr("", str)}
+	var tt = &tree{name: t.name, lex: lexExpr(t.name, str)}
 	defer tt.lex.drain()
+	defer func() {
+		// An error in the quoted expression is reported by the enclosing parse,
+		// with the input's file name and the position of the tag being parsed.
+		if e := recover(); e != nil {
+			if _, ok := e.(runtime.Error); ok {
+				panic(e)
+			}
+			t.errorf("in expression %q: %v", str, e)
+		}
+	}()
 	return tt.parseExpr(0)
 }
 
